@@ -474,6 +474,19 @@ def batchResponses (cfg : Config) (env : Env) (tbl : Table) (xs : List Json) : L
 def batchLog (cfg : Config) (env : Env) (tbl : Table) (xs : List Json) : List Call :=
   (batchEntries cfg env tbl xs).flatMap (·.2)
 
+/-- A batch during which the request context expires (deadline, client gone): `handleBatchRequest`
+has no cancellation check in its dispatch loop, it submits EVERY entry to the pool (waiting for a
+free slot if the pool is saturated) and waits for all of them. Entries dispatched before the
+expiry see `env`; entries dispatched after it see `envLate`: their handlers observe a cancelled
+context and may answer differently, but they are still run and answered. -/
+def batchResponsesCancelled (cfg : Config) (env envLate : Env) (tbl : Table) (early late : List Json) :
+    List Response :=
+  batchResponses cfg env tbl early ++ batchResponses cfg envLate tbl late
+
+def batchLogCancelled (cfg : Config) (env envLate : Env) (tbl : Table) (early late : List Json) :
+    List Call :=
+  batchLog cfg env tbl early ++ batchLog cfg envLate tbl late
+
 /-- `HandleReader`. Batch entries run concurrently in the real server, so its response array and
 its invocation order are some permutation of what is computed here (request order). -/
 def handleInput (cfg : Config) (env : Env) (tbl : Table) (inp : Input) : Output :=
